@@ -4,8 +4,8 @@ From PK.Model Require Export C08.
 From PK.Corr Require Export Common.
 Import ListNotations.
 
-Definition mkm (r : N) (t : ctype) (sz : N) (del : bool) (mt ct : option Z) (attrs : list (N * list N)) (nt : list N) (wh : N) : blobm :=
-  {| m_ref := r; m_type := t; m_size := sz; m_deleted := del; m_mtime := mt; m_ctime := ct; m_attrs := attrs; m_ntypes := nt; m_whole := wh |}.
+Definition mkm (r : N) (t : ctype) (sz : N) (del : bool) (mt ct : option Z) (attrs : list (N * list N)) (nt : list N) (wh : N) (kids : list N) : blobm :=
+  {| m_ref := r; m_type := t; m_size := sz; m_deleted := del; m_mtime := mt; m_ctime := ct; m_attrs := attrs; m_ntypes := nt; m_whole := wh; m_kids := kids |}.
 
 Fixpoint nlist_eqb (a b : list N) : bool :=
   match a, b with [], [] => true | x :: r, y :: s => N.eqb x y && nlist_eqb r s | _, _ => false end.
